@@ -236,5 +236,109 @@ func produceGuards(repo string) ([]byte, []string) {
 		}
 		b.WriteString(def + "\n\n")
 	}
+	// the recovering wrapper of the crypto library's Verify (repair c4422b91)
+	if err := checkVerifyWrapper(repo); err != nil {
+		errs = append(errs, "verify_wrapper: "+err.Error())
+		fmt.Fprintf(&b, "Definition translator_broken_verify_wrapper : unit := tt. (* %s *)\n", strings.ReplaceAll(err.Error(), "*)", "* )"))
+	} else {
+		b.WriteString("(* core/signature/signature.go: func verify calls s.Verify under a deferred recover that sets its\n   result to false; Verify and VerifyMultiSignature call the library only through it. *)\n")
+		b.WriteString("Definition verify_wrapper_recovers : bool := true.\n")
+	}
 	return []byte(b.String()), errs
+}
+
+func isCall(n ast.Node, pkg, name string) bool {
+	ce, ok := n.(*ast.CallExpr)
+	if !ok {
+		return false
+	}
+	if pkg == "" {
+		id, ok := ce.Fun.(*ast.Ident)
+		return ok && id.Name == name
+	}
+	se, ok := ce.Fun.(*ast.SelectorExpr)
+	if !ok {
+		return false
+	}
+	x, ok := se.X.(*ast.Ident)
+	return ok && x.Name == pkg && se.Sel.Name == name
+}
+
+func countCalls(body ast.Node, pkg, name string) int {
+	n := 0
+	ast.Inspect(body, func(x ast.Node) bool {
+		if x != nil && isCall(x, pkg, name) {
+			n++
+		}
+		return true
+	})
+	return n
+}
+
+// checkVerifyWrapper reads the shape the model's [wverify] mirrors: `func verify(...) (ok bool)`
+// whose body is a deferred function literal that calls recover() and assigns ok = false, followed
+// by `return s.Verify(...)`; Verify and VerifyMultiSignature call verify and never s.Verify.
+func checkVerifyWrapper(repo string) error {
+	path := filepath.Join(repo, "core/signature/signature.go")
+	fset := token.NewFileSet()
+	f, err := parser.ParseFile(fset, path, nil, 0)
+	if err != nil {
+		return err
+	}
+	funcs := map[string]*ast.FuncDecl{}
+	for _, d := range f.Decls {
+		if x, ok := d.(*ast.FuncDecl); ok && x.Recv == nil {
+			funcs[x.Name.Name] = x
+		}
+	}
+	w := funcs["verify"]
+	if w == nil {
+		return fmt.Errorf("func verify (the recovering wrapper) not found")
+	}
+	res := w.Type.Results
+	if res == nil || len(res.List) != 1 || len(res.List[0].Names) != 1 || res.List[0].Names[0].Name != "ok" {
+		return fmt.Errorf("func verify: expected the single named result `ok bool`")
+	}
+	if len(w.Body.List) != 2 {
+		return fmt.Errorf("func verify: expected `defer func(){...}()` followed by `return s.Verify(...)`")
+	}
+	df, ok := w.Body.List[0].(*ast.DeferStmt)
+	if !ok {
+		return fmt.Errorf("func verify: first statement is not a defer")
+	}
+	lit, ok := df.Call.Fun.(*ast.FuncLit)
+	if !ok || countCalls(lit.Body, "", "recover") != 1 {
+		return fmt.Errorf("func verify: the deferred function does not call recover()")
+	}
+	setsFalse := false
+	ast.Inspect(lit.Body, func(x ast.Node) bool {
+		if as, ok := x.(*ast.AssignStmt); ok && len(as.Lhs) == 1 && len(as.Rhs) == 1 {
+			l, lok := as.Lhs[0].(*ast.Ident)
+			r, rok := as.Rhs[0].(*ast.Ident)
+			if lok && rok && l.Name == "ok" && r.Name == "false" {
+				setsFalse = true
+			}
+		}
+		return true
+	})
+	if !setsFalse {
+		return fmt.Errorf("func verify: the deferred function does not set ok = false")
+	}
+	ret, ok := w.Body.List[1].(*ast.ReturnStmt)
+	if !ok || len(ret.Results) != 1 || !isCall(ret.Results[0], "s", "Verify") {
+		return fmt.Errorf("func verify: does not end in `return s.Verify(...)`")
+	}
+	for _, name := range []string{"Verify", "VerifyMultiSignature"} {
+		fd := funcs[name]
+		if fd == nil {
+			return fmt.Errorf("func %s not found", name)
+		}
+		if countCalls(fd.Body, "s", "Verify") != 0 {
+			return fmt.Errorf("func %s calls the crypto library's s.Verify directly (not through the recovering wrapper)", name)
+		}
+		if countCalls(fd.Body, "", "verify") != 1 {
+			return fmt.Errorf("func %s: expected exactly one call of verify", name)
+		}
+	}
+	return nil
 }
